@@ -87,7 +87,7 @@ def _ring_or_box(r: random.Random, n_labels: int, wide: float) -> Dict[str, Any]
     }
 
 
-def gen_scenario(r: random.Random, task: Optional[str] = None, n_frames: Optional[int] = None, big: bool = False, fp_share: Optional[float] = None, overrides: Optional[Dict[str, Any]] = None) -> Scenario:
+def gen_scenario(r: random.Random, task: Optional[str] = None, n_frames: Optional[int] = None, big: bool = False, fp_share: Optional[float] = None, overrides: Optional[Dict[str, Any]] = None, det: Optional[Dict[str, Any]] = None) -> Scenario:
     task = task or r.choice(["detection", "detection", "tracking", "fp_validation"])
     n_frames = n_frames or r.randint(1, 4 if not big else 8)
     wide = r.choice([30.0, 60.0, 100.0])
@@ -136,6 +136,8 @@ def gen_scenario(r: random.Random, task: Optional[str] = None, n_frames: Optiona
     p_unknown = r.choice([0.0, 0.1, 0.3])
     n_fa = r.choice([0, 0, 1, 3])
     p_switch = r.choice([0.0, 0.0, 0.15, 0.4])
+    if det:  # detector-model overrides (workloads that need a specific regime)
+        p_det, pos_sig, yaw_sig, p_conf, p_unknown, n_fa, p_switch = (det.get(k, v) for k, v in (("p_det", p_det), ("pos_sig", pos_sig), ("yaw_sig", yaw_sig), ("p_conf", p_conf), ("p_unknown", p_unknown), ("n_fa", n_fa), ("p_switch", p_switch)))
 
     frames: List[Frame] = []
     next_id = [1000]
@@ -163,7 +165,7 @@ def gen_scenario(r: random.Random, task: Optional[str] = None, n_frames: Optiona
                 elif r.random() < p_unknown:
                     name = "unknown"
                 elif r.random() < p_conf:
-                    name = r.choice(CONFUSION.get(name, ["car"]))
+                    name = (det or {}).get("force_name") or r.choice(CONFUSION.get(name, ["car"]))
                 eb = (
                     x + r.gauss(0, pos_sig),
                     y + r.gauss(0, pos_sig),
